@@ -510,6 +510,21 @@ def option_reads(ctx, module, func):
                     if isinstance(target, ast.Name) and target.id not in aliases:
                         aliases.add(target.id)
                         changed = True
+    def literal_key(expr):
+        """The option name: a string literal, or a local bound exactly once to a string literal (parameter binding
+        of an inlined helper)."""
+        if isinstance(expr, ast.Constant):
+            return expr.value
+        if isinstance(expr, ast.Name):
+            values = [n.value for n in ast.walk(func) if isinstance(n, ast.Assign) and len(n.targets) == 1
+                      and isinstance(n.targets[0], ast.Name) and n.targets[0].id == expr.id]
+            if len(values) == 1 and isinstance(values[0], ast.Constant) and isinstance(values[0].value, str):
+                return values[0].value
+            params = {a.arg for a in func.args.args + func.args.kwonlyargs}
+            if expr.id in params and func.name.startswith("_"):
+                return "<parameter of a private helper>"
+        return None
+
     reads = []
     for node in ast.walk(func):
         if isinstance(node, ast.Subscript) and isinstance(node.ctx, ast.Load):
@@ -518,16 +533,18 @@ def option_reads(ctx, module, func):
                 isinstance(base, ast.Call) and ctx.dotted(module, base.func, local_names - {"get_options"}) == GET
             )
             if is_opt:
-                key = node.slice.value if isinstance(node.slice, ast.Constant) else None
-                reads.append((key, node))
+                key = literal_key(node.slice)
+                if key != "<parameter of a private helper>":
+                    reads.append((key, node))
         if isinstance(node, ast.Call) and isinstance(node.func, ast.Attribute) and node.func.attr == "get":
             base = node.func.value
             is_opt = (isinstance(base, ast.Name) and base.id in aliases) or (
                 isinstance(base, ast.Call) and ctx.dotted(module, base.func, local_names - {"get_options"}) == GET
             )
             if is_opt and node.args:
-                key = node.args[0].value if isinstance(node.args[0], ast.Constant) else None
-                reads.append((key, node))
+                key = literal_key(node.args[0])
+                if key != "<parameter of a private helper>":
+                    reads.append((key, node))
     return reads
 
 
@@ -580,16 +597,36 @@ def _o6(ctx, result):
                 while not isinstance(stmt, ast.stmt):
                     stmt = stmt._parent
                 guard = getattr(stmt, "_parent", None)
+                fparams = {a.arg for a in func.args.posonlyargs + func.args.args + func.args.kwonlyargs}
+
+                def param_of(name, depth=0):
+                    """The parameter a local name stands for (through single plain assignments), or None."""
+                    if name in fparams:
+                        return name
+                    if depth > 4:
+                        return None
+                    values = [n2.value for n2 in ast.walk(func) if isinstance(n2, ast.Assign) and len(n2.targets) == 1
+                              and isinstance(n2.targets[0], ast.Name) and n2.targets[0].id == name]
+                    if len(values) == 1 and isinstance(values[0], ast.Name):
+                        return param_of(values[0].id, depth + 1)
+                    return None
+
+                def none_test_of_param(test):
+                    return isinstance(test, ast.Compare) and len(test.ops) == 1 and isinstance(test.ops[0], ast.Is) \
+                        and isinstance(test.comparators[0], ast.Constant) and test.comparators[0].value is None \
+                        and isinstance(test.left, ast.Name) and param_of(test.left.id) == key
+
                 ok = (
                     isinstance(stmt, ast.Assign)
                     and stmt.value is node
                     and len(stmt.targets) == 1
                     and isinstance(stmt.targets[0], ast.Name)
-                    and stmt.targets[0].id == key
                     and isinstance(guard, ast.If)
                     and stmt in guard.body
-                    and U(guard.test) == f"{key} is None"
+                    and none_test_of_param(guard.test)
                 )
+                if not ok and isinstance(stmt, ast.Assign) and isinstance(stmt.value, ast.IfExp) and stmt.value.body is node:
+                    ok = none_test_of_param(stmt.value.test)  # T = options[K] if P is None else P
                 result.ob(f"O6 '{key}' only replaces a None argument", ok, where, U(stmt))
                 if not ok:
                     result.add(Finding(
